@@ -91,6 +91,11 @@ func runC08(c *Ctx) {
 			// a header whose length field is smaller than the header itself
 			lf := uint32(c.T.Choose(8))
 			bad := CPkt{Kind: KUnframeable, Bytes: codec.PacketRaw(uint16(1+c.T.Choose(16)), lf, c.T.Bytes(c.T.Choose(24), 5))}
+			if c.T.Bool(1, 3) {
+				// ... nothing but such a header, of a type that has no body anyway (keep-alive,
+				// close): the length field is what counts, not what the type would need
+				bad.Bytes = codec.PacketRaw([]uint16{codec.PktKeepalive, codec.PktCloseChannel, codec.PktData}[c.T.Choose(3)], lf, nil)
+			}
 			p.Pkts = append(append(append([]CPkt{}, p.Pkts[:k]...), bad), p.Pkts[k:]...)
 			unframeable = fmt.Sprintf("length-field=%d at packet %d", lf, k)
 		} else {
@@ -268,6 +273,11 @@ func runC08(c *Ctx) {
 	}
 	if p.Transport == "ws" && c.T.Bool(1, 4) {
 		p.WSFrames = 2 + c.T.Choose(3)
+	}
+	if p.Transport == "ws" && c.T.Bool(1, 5) {
+		// some clients (and proxies) send empty binary messages now and then
+		p.EmptyMsgEvery = 1 + c.T.Choose(3)
+		sp.kind += " +empty-messages"
 	}
 	reconnect := ""
 	if c.T.Bool(1, 5) {
